@@ -170,7 +170,7 @@ unknown_field:
 			itr->_field_traits.set(FieldTrait::present);
 			// check if repeating group and num elements > 0
 			if (itr->_field_traits.has(FieldTrait::group) && has_group_count(bf))
-				s_offset = decode_group(nullptr, tv, from, s_offset, ignore);
+				s_offset = decode_group(nullptr, tv, from, s_offset, ignore, permissive_mode);
 
 			if (itr->_ftype != FieldTrait::ft_Length || tv == Common_BodyLength) // this type expects next field to be data
 				break;
@@ -217,7 +217,7 @@ unknown_field:
 
 //-------------------------------------------------------------------------------------------------
 unsigned MessageBase::decode_group(GroupBase *grpbase, const unsigned short fnum, const f8String& from,
-	unsigned s_offset, unsigned ignore)
+	unsigned s_offset, unsigned ignore, bool permissive_mode)
 {
 	unsigned result;
 	if (!(grpbase = find_add_group(fnum, grpbase)))
@@ -233,12 +233,18 @@ unsigned MessageBase::decode_group(GroupBase *grpbase, const unsigned short fnum
 		for (unsigned pos(0); s_offset < fsize && (result = extract_element(dptr + s_offset, fsize - s_offset, tag, val));)
 		{
 			const unsigned short tv(tag_to_fnum(tag));
+			const BaseEntry *be(_ctx.find_be(tv));
+			if (!be && permissive_mode)	// unknown to the schema: passed through with the element it stands in
+			{
+				grp->_unknown.append(dptr + s_offset, result);
+				s_offset += result;
+				continue;
+			}
 			Presence::const_iterator itr(grp->_fp.get_presence().end());
 			if (grp->_fp.get(tv, itr, FieldTrait::present))	// already present; next group?
 				break;
 			if (pos == 0 && grp->_fp.getPos(tv, itr) != 1)	// first field in group is mandatory
 				throw MissingRepeatingGroupField(tv);
-			const BaseEntry *be(_ctx.find_be(tv));
 			if (!be || !grp->_fp.has(tv, itr))	// unknown field or field not found in sub-group - end of repeats?
 			{
 				ok = false;
@@ -252,7 +258,7 @@ unsigned MessageBase::decode_group(GroupBase *grpbase, const unsigned short fnum
 			grp->_fp.set(tv, itr, FieldTrait::present);	// is present
 			// nested group (check if not zero elements)
 			if (grp->_fp.is_group(tv, itr) && has_group_count(bf))
-				s_offset = grp->decode_group(grpbase, tv, from, s_offset, ignore);
+				s_offset = grp->decode_group(grpbase, tv, from, s_offset, ignore, permissive_mode);
 		}
 
 		const unsigned short missing(grp->_fp.find_missing());
